@@ -1,0 +1,32 @@
+//go:build verif
+
+// Contracts for the deductive verifier in /verif (comment-only file; compiled
+// only with -tags verif and declares nothing).
+
+package ir
+
+//@ # ---------------------------------------------------------------- C19 ---
+//@ func (*fmtWriter).Fprintf
+//@   props C19
+//@   requires fw != nil
+//@   assigns fw.size, fw.err, ghost(written), ghost(wcalls), ghost(firsterr), ghost(wafter)
+//@   ensures old(fw.err) != nil ==> n == 0 && err == nil && fw.size == old(fw.size) && fw.err == old(fw.err) && wcalls(fw.w) == old(wcalls(fw.w)) && written(fw.w) == old(written(fw.w)) && firsterr(fw.w) == old(firsterr(fw.w)) && wafter(fw.w) == old(wafter(fw.w))
+//@   ensures old(fw.err) == nil ==> fw.size == old(fw.size) + n && fw.err == err && written(fw.w) == old(written(fw.w)) + n && wcalls(fw.w) == old(wcalls(fw.w)) + 1
+//@   ensures old(fw.err) == nil ==> firsterr(fw.w) == ite(old(firsterr(fw.w)) == nil, err, old(firsterr(fw.w))) && wafter(fw.w) == old(wafter(fw.w)) + ite(old(firsterr(fw.w)) == nil, 0, 1)
+
+//@ func (*fmtWriter).Fprint
+//@   props C19
+//@   requires fw != nil
+//@   assigns fw.size, fw.err, ghost(written), ghost(wcalls), ghost(firsterr), ghost(wafter)
+//@   ensures old(fw.err) != nil ==> n == 0 && err == nil && fw.size == old(fw.size) && fw.err == old(fw.err) && wcalls(fw.w) == old(wcalls(fw.w)) && written(fw.w) == old(written(fw.w)) && firsterr(fw.w) == old(firsterr(fw.w)) && wafter(fw.w) == old(wafter(fw.w))
+//@   ensures old(fw.err) == nil ==> fw.size == old(fw.size) + n && fw.err == err && written(fw.w) == old(written(fw.w)) + n && wcalls(fw.w) == old(wcalls(fw.w)) + 1
+//@   ensures old(fw.err) == nil ==> firsterr(fw.w) == ite(old(firsterr(fw.w)) == nil, err, old(firsterr(fw.w))) && wafter(fw.w) == old(wafter(fw.w)) + ite(old(firsterr(fw.w)) == nil, 0, 1)
+
+//@ func (*fmtWriter).Fprintln
+//@   props C19
+//@   requires fw != nil
+//@   assigns fw.size, fw.err, ghost(written), ghost(wcalls), ghost(firsterr), ghost(wafter)
+//@   ensures old(fw.err) != nil ==> n == 0 && err == nil && fw.size == old(fw.size) && fw.err == old(fw.err) && wcalls(fw.w) == old(wcalls(fw.w)) && written(fw.w) == old(written(fw.w)) && firsterr(fw.w) == old(firsterr(fw.w)) && wafter(fw.w) == old(wafter(fw.w))
+//@   ensures old(fw.err) == nil ==> fw.size == old(fw.size) + n && fw.err == err && written(fw.w) == old(written(fw.w)) + n && wcalls(fw.w) == old(wcalls(fw.w)) + 1
+//@   ensures old(fw.err) == nil ==> firsterr(fw.w) == ite(old(firsterr(fw.w)) == nil, err, old(firsterr(fw.w))) && wafter(fw.w) == old(wafter(fw.w)) + ite(old(firsterr(fw.w)) == nil, 0, 1)
+
